@@ -14,6 +14,9 @@ LEVEL_TEXT = ("static: decides the mask symmetry the mechanism rests on, for eve
               "every success path; (IDENT) a configured server is matched to an existing one only on equal address, UDP port and TCP port; (DUP) every "
               "field a public setter writes is either covered by a mask bit or copied by ares_dup. Does NOT decide textual round trip of server lists."
               " Also decides (COPYALL) member-wise function-table copies are complete, (EXPORTORDER) whether the server list is exported in configuration order (four known findings), (SETATOMIC) that a rejected setter call changes nothing, (OUTINIT) that server configs are filled completely.")
+# fifth-round additions
+TECHNIQUE += "; " + "type agreement of sizeof operands with destination element types (R-C16-ELEMSIZE); interpretation of the printf format / append sequence of the server renderers against the readers' split character (R-C16-ZONEFMT); exact evaluation of the URI zone validator's character predicate against the plain reader's interface charset (R-C16-IFACESET)"
+LEVEL_TEXT += " " + "(ELEMSIZE) blocks sized n*sizeof(X) are sized in units of the destination's element type; (ZONEFMT) a link-local server is rendered as address%interface with exactly the readers' split character between; (IFACESET) every non-alphanumeric character the plain syntax accepts in an interface name is also accepted by the URI zone check, one instance per character -- ':' '\\\\' '{' '}' are known findings."
 LEVEL_NOTE = "trusts clang CFG + extractor; string-level fidelity of ares_get_servers_csv -> ares_set_servers_csv needs execution"
 DESIGN_REF = "DESIGN.md §6/C16"
 EXPLANATION = LEVEL_TEXT
